@@ -185,6 +185,7 @@ func checkC12(r *Result) {
 	r.rule("TYPESTATE", "the constants stored to Dispute.DisputeStatus per function are exactly the specified transitions, each under the facts fixing its source state")
 	r.rule("SNAPSHOT-BLOCK", "a dispute's snapshot block number is written only when the dispute is created")
 	r.rule("VOTE-GUARDS", "a vote is recorded only in voting state, once per address and round, before the vote end, with powers taken at the dispute's block")
+	r.rule("PERSISTED", "each transition is carried out completely: its consequences happen on the same paths and the record is stored afterwards; results are written once and with the quorum flag of the test taken")
 	r.rule("TALLY-FORMULA", "ratio, group contributions, team weight and quorum have the specified algebraic normal forms")
 	r.rule("TALLY-TOTAL", "the recorded result is decided for every ordering of the three sums, and is the strict maximum's class when one exists")
 	r.rule("EXHAUSTIVE", "switches over VoteEnum / VoteResult / DisputeCategory cover every constant or fail closed")
@@ -627,6 +628,194 @@ func checkC12(r *Result) {
 		}
 		r.check(found && okFive && okPaid, "FEE-DOUBLING", "(x/dispute/keeper.Keeper).AddDisputeRound # round fee = SlashAmount/20 * 2^round, and the offered fee must cover it", P.Pos(adr.Pos()), fmt.Sprintf("2^round factor: %v ; base = 1/20 of the slash amount at the dispute's round: %v ; underpayment rejected before paying: %v", found, okFive, okPaid))
 	}
+	// ---- the transitions are carried out completely (PERSISTED)
+	noTally := "const:" + enumVal(P, "x/dispute/types", "VoteResult_NO_TALLY")
+	stVoting := enumVal(P, "x/dispute/types", "Voting")
+	stFailed := enumVal(P, "x/dispute/types", "Failed")
+	storesStatus := func(in ssa.Instruction, val string) bool {
+		return storesConstToField(in, "x/dispute/types.Dispute.DisputeStatus", val)
+	}
+	// prevote -> voting: the status is set to Voting exactly on the paths that slash the reporter and open the vote,
+	// and the dispute is stored afterwards
+	for _, name := range []string{"(x/dispute/keeper.Keeper).SetNewDispute", "(x/dispute/keeper.msgServer).AddFeeToDispute"} {
+		fn := need(name)
+		if fn == nil {
+			continue
+		}
+		requireAtSuccess(r, "PERSISTED", fn, "status Voting <=> reporter slashed <=> vote opened, and the dispute is stored after that", []Atom{
+			{Name: "voting", Event: func(in ssa.Instruction) (bool, int8) { return storesStatus(in, stVoting), T }},
+			{Name: "slashed", Event: P.CallEvent(func(c *CallSite) bool { return c.Callee == "(x/dispute/keeper.Keeper).SlashAndJailReporter" }, T)},
+			{Name: "opened", Event: P.CallEvent(func(c *CallSite) bool { return c.Callee == "(x/dispute/keeper.Keeper).SetStartVote" }, T)},
+			{Name: "stored", Event: func(in ssa.Instruction) (bool, int8) {
+				if storesStatus(in, stVoting) {
+					return true, F
+				}
+				if c, ok := in.(ssa.CallInstruction); ok {
+					if cs := P.siteOf(c); cs != nil && cs.Desc() == "coll:x/dispute/keeper.Keeper.Disputes.Set" {
+						return true, T
+					}
+				}
+				return false, U
+			}},
+		}, func(v map[string]bool) bool {
+			return v["voting"] == v["slashed"] && v["voting"] == v["opened"] && v["stored"]
+		})
+	}
+	if fn := need("(x/dispute/keeper.Keeper).SetNewDispute"); fn != nil {
+		requireAtSuccess(r, "PERSISTED", fn, "a new dispute records the group totals its quorum is measured against", []Atom{
+			{Name: "blockInfo", Event: P.CallEvent(func(c *CallSite) bool { return c.Callee == "(x/dispute/keeper.Keeper).SetBlockInfo" }, T)},
+		}, func(v map[string]bool) bool { return v["blockInfo"] })
+	}
+	// the block hook: prevote -> failed is stored, and an ended vote without a result is tallied, in the iteration that finds it
+	if hook := need("x/dispute.CheckOpenDisputesForExpiration"); hook != nil {
+		// the block that is entered when the vote has ended and has no result
+		var due *ssa.BasicBlock
+		tmh := NewTermer()
+		for _, b := range hook.Blocks {
+			if iff, ok := b.Instrs[len(b.Instrs)-1].(*ssa.If); ok {
+				rel, pol := Cond(tmh.Of(iff.Cond))
+				if rel.Op == "==" && len(rel.Args) == 2 && strings.HasPrefix(rel.Args[0].Op, "field:x/dispute/types.Vote.VoteResult") && rel.Args[1].Op == noTally {
+					if pol {
+						due = b.Succs[0]
+					} else {
+						due = b.Succs[1]
+					}
+				}
+			}
+		}
+		heads := map[ssa.Instruction]bool{}
+		for _, h := range loopHeaders(hook) {
+			if len(h.Instrs) > 0 {
+				heads[h.Instrs[0]] = true
+			}
+		}
+		ps := AnalyzePaths(hook, []Atom{
+			{Name: "failedPending", Event: func(in ssa.Instruction) (bool, int8) {
+				if storesStatus(in, stFailed) {
+					return true, T
+				}
+				if c, ok := in.(ssa.CallInstruction); ok {
+					if cs := P.siteOf(c); cs != nil && cs.Desc() == "coll:x/dispute/keeper.Keeper.Disputes.Set" {
+						return true, F
+					}
+				}
+				return false, U
+			}},
+			{Name: "due", Event: func(in ssa.Instruction) (bool, int8) {
+				if heads[in] {
+					return true, F
+				}
+				if due != nil && len(due.Instrs) > 0 && in == due.Instrs[0] {
+					return true, T
+				}
+				return false, U
+			}},
+			{Name: "tallied", Event: func(in ssa.Instruction) (bool, int8) {
+				if heads[in] {
+					return true, F
+				}
+				if c, ok := in.(ssa.CallInstruction); ok {
+					if cs := P.siteOf(c); cs != nil && cs.Callee == "(x/dispute/keeper.Keeper).TallyVote" {
+						return true, T
+					}
+				}
+				return false, U
+			}},
+		})
+		okAll, n, det := true, 0, ""
+		phi := func(v map[string]bool) bool { return !v["failedPending"] && (!v["due"] || v["tallied"]) }
+		for _, h := range loopHeaders(hook) {
+			for _, p := range h.Preds {
+				if !h.Dominates(p) {
+					continue
+				}
+				n++
+				if bad := ps.RequireOnEdge(p, h, phi); len(bad) > 0 {
+					okAll, det = false, fmt.Sprint(bad)
+				}
+			}
+		}
+		for _, ret := range SuccessReturns(hook) {
+			if bad := ps.Require(ret, func(v map[string]bool) bool { return !v["failedPending"] }); len(bad) > 0 {
+				okAll, det = false, fmt.Sprint(bad)
+			}
+		}
+		r.check(okAll && n > 0 && due != nil, "PERSISTED", "x/dispute.CheckOpenDisputesForExpiration # each visit stores a dispute it failed and tallies an ended vote that has no result", P.Pos(hook.Pos()), fmt.Sprintf("%d back edges %s", n, det))
+	}
+	// voting -> resolved / unresolved: TallyVote writes only for a vote that has no result yet, and the quorum flag
+	// handed to UpdateDispute agrees with the quorum test that was taken
+	if tv := need("(x/dispute/keeper.Keeper).TallyVote"); tv != nil {
+		le := &linEval{Atomise: func(t *Term) string {
+			if t.Op == "global:types.PowerReduction" {
+				return "PR"
+			}
+			return ""
+		}}
+		ps := AnalyzePaths(tv, []Atom{
+			{Name: "untallied", Stable: true, Cond: func(rel *Term) (bool, bool) {
+				if rel.Op == "==" && len(rel.Args) == 2 && strings.HasPrefix(rel.Args[0].Op, "field:x/dispute/types.Vote.VoteResult") && rel.Args[1].Op == noTally {
+					return true, true
+				}
+				return false, false
+			}},
+			{Name: "quorum", Cond: func(rel *Term) (bool, bool) {
+				if rel.Op == "<=" && len(rel.Args) == 2 {
+					if c, m, ok := le.Eval(rel.Args[0]).Single(); ok && m["PR"] == 1 && len(m) == 1 && ratEq(c, 51, 1) {
+						return true, true
+					}
+				}
+				return false, false
+			}},
+			{Name: "ended", Stable: true, Cond: func(rel *Term) (bool, bool) {
+				if rel.Op == "<" && len(rel.Args) == 2 && strings.HasPrefix(rel.Args[0].Op, "field:x/dispute/types.Vote.VoteEnd") && strings.HasSuffix(rel.Args[1].Op, "Context).BlockTime") {
+					return true, true
+				}
+				return false, false
+			}},
+		})
+		nW, okW, okQ, det := 0, true, true, ""
+		for _, cs := range P.CallSitesIn(tv) {
+			write := cs.Callee == "(x/dispute/keeper.Keeper).UpdateDispute" || cs.Desc() == "coll:x/dispute/keeper.Keeper.Votes.Set" || cs.Desc() == "coll:x/dispute/keeper.Keeper.Disputes.Set"
+			if !write {
+				continue
+			}
+			nW++
+			if bad := ps.Require(cs.Instr, func(v map[string]bool) bool { return v["untallied"] }); len(bad) > 0 {
+				okW, det = false, P.Pos(cs.Pos())+fmt.Sprint(bad)
+			}
+			withQuorum := cs.Callee == "(x/dispute/keeper.Keeper).UpdateDispute" && NewTermer().Of(Arg(cs.Instr, 7)).Op == "const:true"
+			if bad := ps.Require(cs.Instr, func(v map[string]bool) bool {
+				if withQuorum {
+					return v["quorum"]
+				}
+				return !v["quorum"] && v["ended"]
+			}); len(bad) > 0 {
+				okQ, det = false, P.Pos(cs.Pos())+fmt.Sprint(bad)
+			}
+		}
+		r.check(okW && nW >= 4 && len(ps.Matched["untallied"]) > 0, "PERSISTED", "(x/dispute/keeper.Keeper).TallyVote # a result is written only for a vote that has none yet", P.Pos(tv.Pos()), fmt.Sprintf("%d write sites %s", nW, det))
+		r.check(okQ && nW >= 4 && len(ps.Matched["quorum"]) == 2 && len(ps.Matched["ended"]) > 0, "PERSISTED", "(x/dispute/keeper.Keeper).TallyVote # 'with quorum' is recorded under a passed quorum test, 'without' only after the vote ended with both tests failed", P.Pos(tv.Pos()), fmt.Sprintf("%d write sites %s", nW, det))
+	}
+	// zero totals in a group: Ratio divides only by a non-zero total
+	if ra := need("x/dispute/keeper.Ratio"); ra != nil {
+		ps := AnalyzePaths(ra, []Atom{{Name: "zeroTotal", Stable: true, Cond: func(rel *Term) (bool, bool) {
+			if rel.Op == "==" && len(rel.Args) == 2 && rel.Args[0].Op == "param:0:cosmossdk.io/math.Int" && rel.Args[1].Op == "const:0" {
+				return true, true
+			}
+			return false, false
+		}}})
+		n, okAll := 0, true
+		for _, cs := range P.CallSitesIn(ra) {
+			if strings.HasSuffix(cs.Callee, "LegacyDec).Quo") || strings.HasSuffix(cs.Callee, "Int).Quo") {
+				n++
+				if bad := ps.Require(cs.Instr, func(v map[string]bool) bool { return !v["zeroTotal"] }); len(bad) > 0 {
+					okAll = false
+				}
+			}
+		}
+		r.check(okAll && n >= 1 && len(ps.Matched["zeroTotal"]) > 0, "PERSISTED", "x/dispute/keeper.Ratio # divides only by a non-zero total (a group without weight contributes 0)", P.Pos(ra.Pos()), fmt.Sprintf("%d divisions", n))
+	}
+	r.minCount("PERSISTED", 7)
 	r.minCount("TYPESTATE", 10)
 	r.minCount("VOTE-GUARDS", 8)
 	r.minCount("TALLY-FORMULA", 8)
